@@ -10,11 +10,13 @@
 //!
 //! Oracle (from the statement): a connection that was accepted before the signal and whose complete
 //! request had been written by the instant of the signal is an exchange the server had started to
-//! handle: the full response arrives, then the connection is closed. Connections accepted before
+//! handle (written in the very instant of the signal: iff the server has read from it - the accepted
+//! streams count what the server reads): the full response arrives, then the connection is closed. Connections accepted before
 //! the signal with nothing in flight are closed. The serving future resolves `Ok` at the signal.
 
 use crate::common::{CaseReport, Engine};
 use serde::{Deserialize, Serialize};
+use std::sync::atomic::{AtomicUsize, Ordering};
 use std::sync::{Arc, Mutex};
 use std::time::Duration;
 
@@ -48,6 +50,66 @@ fn h2_request() -> Vec<u8> {
     // HEADERS on stream 1, END_STREAM | END_HEADERS: :method GET, :scheme http, :path /
     v.extend_from_slice(&[0, 0, 3, 1, 5, 0, 0, 0, 1, 0x82, 0x86, 0x84]);
     v
+}
+
+/// The accepted stream counts the bytes the server has read from it: "the server consumed the
+/// request" is what the oracle needs to know for a request written in the instant of the signal.
+pub struct CountIo {
+    inner: hyperdriver::stream::duplex::DuplexStream,
+    read: Arc<AtomicUsize>,
+}
+impl std::fmt::Debug for CountIo {
+    fn fmt(&self, f: &mut std::fmt::Formatter<'_>) -> std::fmt::Result {
+        write!(f, "CountIo")
+    }
+}
+impl hyperdriver::info::HasConnectionInfo for CountIo {
+    type Addr = hyperdriver::info::DuplexAddr;
+    fn info(&self) -> hyperdriver::info::ConnectionInfo<Self::Addr> {
+        self.inner.info()
+    }
+}
+impl tokio::io::AsyncRead for CountIo {
+    fn poll_read(mut self: std::pin::Pin<&mut Self>, cx: &mut std::task::Context<'_>, buf: &mut tokio::io::ReadBuf<'_>) -> std::task::Poll<std::io::Result<()>> {
+        let before = buf.filled().len();
+        let r = std::pin::Pin::new(&mut self.inner).poll_read(cx, buf);
+        if let std::task::Poll::Ready(Ok(())) = &r {
+            self.read.fetch_add(buf.filled().len() - before, Ordering::SeqCst);
+        }
+        r
+    }
+}
+impl tokio::io::AsyncWrite for CountIo {
+    fn poll_write(mut self: std::pin::Pin<&mut Self>, cx: &mut std::task::Context<'_>, buf: &[u8]) -> std::task::Poll<std::io::Result<usize>> {
+        std::pin::Pin::new(&mut self.inner).poll_write(cx, buf)
+    }
+    fn poll_flush(mut self: std::pin::Pin<&mut Self>, cx: &mut std::task::Context<'_>) -> std::task::Poll<std::io::Result<()>> {
+        std::pin::Pin::new(&mut self.inner).poll_flush(cx)
+    }
+    fn poll_shutdown(mut self: std::pin::Pin<&mut Self>, cx: &mut std::task::Context<'_>) -> std::task::Poll<std::io::Result<()>> {
+        std::pin::Pin::new(&mut self.inner).poll_shutdown(cx)
+    }
+}
+
+pub struct CountAcceptor {
+    inner: hyperdriver::stream::duplex::DuplexIncoming,
+    /// one counter per accepted connection, in accept order
+    counters: Arc<Mutex<Vec<Arc<AtomicUsize>>>>,
+}
+impl hyperdriver::server::conn::Accept for CountAcceptor {
+    type Conn = CountIo;
+    type Error = std::io::Error;
+    fn poll_accept(mut self: std::pin::Pin<&mut Self>, cx: &mut std::task::Context<'_>) -> std::task::Poll<Result<Self::Conn, Self::Error>> {
+        match hyperdriver::server::conn::Accept::poll_accept(std::pin::Pin::new(&mut self.inner), cx) {
+            std::task::Poll::Ready(Ok(s)) => {
+                let read = Arc::new(AtomicUsize::new(0));
+                self.counters.lock().unwrap().push(read.clone());
+                std::task::Poll::Ready(Ok(CountIo { inner: s, read }))
+            }
+            std::task::Poll::Ready(Err(e)) => std::task::Poll::Ready(Err(e)),
+            std::task::Poll::Pending => std::task::Poll::Pending,
+        }
+    }
 }
 
 #[derive(Default, Clone, Debug)]
@@ -97,7 +159,8 @@ impl Engine for SigEdgeEngine {
                 let sig = Duration::from_millis(c2.signal_ms as u64);
                 let done: Arc<Mutex<Option<(Result<(), String>, u64)>>> = Default::default();
                 let done2 = done.clone();
-                let base = hyperdriver::Server::builder::<hyperdriver::Body>().with_incoming(incoming);
+                let counters: Arc<Mutex<Vec<Arc<AtomicUsize>>>> = Default::default();
+                let base = hyperdriver::Server::builder::<hyperdriver::Body>().with_acceptor(hyperdriver::server::conn::Acceptor::new(CountAcceptor { inner: incoming, counters: counters.clone() }));
                 macro_rules! serve {
                     ($s:expr) => {{
                         let s = $s.with_shared_service(handler).with_tokio().with_graceful_shutdown(tokio::time::sleep(sig));
@@ -203,7 +266,8 @@ impl Engine for SigEdgeEngine {
                 server.abort();
                 let d = done.lock().unwrap().clone();
                 let st = started.lock().unwrap().clone();
-                (outs, d, st)
+                let consumed: Vec<usize> = counters.lock().unwrap().iter().map(|c| c.load(Ordering::SeqCst)).collect();
+                (outs, d, st, consumed)
             })
         }));
         drop(rt);
@@ -212,7 +276,7 @@ impl Engine for SigEdgeEngine {
                 rep.violate("C07/panic-in-library-task", format!("{c:?}: panic at {loc}: {msg}"));
             }
         }
-        let Ok((outs, done, started)) = res else {
+        let Ok((outs, done, started, consumed)) = res else {
             if rep.violations.is_empty() {
                 rep.internal_error = Some(format!("harness panic at {}: {}", crate::panichook::last_location(), crate::panichook::last_message()));
             }
@@ -226,8 +290,14 @@ impl Engine for SigEdgeEngine {
             Some((Err(e), _)) => rep.violate("C07/server-future-failed", format!("{desc}: {e}")),
             None => rep.violate("C07/server-future-not-resolved-at-signal", format!("{desc}: still pending long after the signal at {sig} ms")),
         }
+        // connect requests queue up in the order they are made (connect instant, then spawn order) and are
+        // accepted in that order: the k-th accepted connection belongs to the k-th client of that order
+        let mut order: Vec<(u8, usize)> = c.clients.iter().enumerate().map(|(k, cl)| (cl.connect_ms, k)).collect();
+        order.sort();
         for (i, o) in &outs {
             let cl = &c.clients[*i];
+            let server_read = order.iter().position(|(_, k)| k == i).and_then(|k| consumed.get(k)).copied().unwrap_or(0);
+            let _req_len = if match proto { 0 => false, 1 => cl.h2, _ => true } { h2_request().len() } else if cl.keep_alive { 39 } else { 58 };
             let h2 = match proto {
                 0 => false,
                 1 => cl.h2,
@@ -242,7 +312,7 @@ impl Engine for SigEdgeEngine {
             };
             let partial = !answered && !o.bytes.is_empty() && (!h2 || o.h2_headers || !o.h2_data.is_empty());
             let what = format!(
-                "client {i} ({}) connected at {connected} ms, wrote its request at {:?} ms, received {} bytes{}, end of stream at {:?} ms",
+                "client {i} ({}) connected at {connected} ms, wrote its request at {:?} ms (the server read {server_read} bytes of the connection), received {} bytes{}, end of stream at {:?} ms",
                 if h2 { "HTTP/2" } else { "HTTP/1.1" },
                 o.written_at,
                 o.bytes.len(),
@@ -251,7 +321,10 @@ impl Engine for SigEdgeEngine {
             );
             if connected < sig {
                 if let Some(w) = o.written_at {
-                    if w <= sig {
+                    // written before the signal: the connection task has run since. Written in its very
+                    // instant: an exchange the server had started to handle iff it has read (any of) the request -
+                    // the sniffer reads no more than a preface's length, hyper treats bytes seen as in flight.
+                    if w < sig || (w == sig && server_read > 0) {
                         if w == sig {
                             rep.class("request-written-in-the-instant-of-the-signal");
                         } else if w + c.handler_ms as u64 >= sig {
